@@ -982,7 +982,7 @@ func genSchedule(p *params, emit func(string, bool)) {
 		id     int
 		period int64
 	}
-	specs := []spec{{1, 60}, {2, 900}, {5, 1800}, {3, 3600}, {4, 86400}}
+	specs := []spec{{1, 60}, {2, 900}, {5, 1800}, {3, 3600}, {4, 86400}, {6, 604800}}
 	for _, sp := range specs {
 		for _, filt := range []int{0, 2} {
 			pr := mkProg("sched", fmt.Sprintf("S:1:R,1,2:2:0:0:0 Z:5:%d:9:%d Z:6:%d:3:0", sp.id, filt, sp.id))
@@ -995,6 +995,10 @@ func genSchedule(p *params, emit func(string, bool)) {
 				return o
 			}
 			steps := []int64{1, sp.period - 1, sp.period, 3 * sp.period, 20}
+			if sp.period > 86400 {
+				// a sparse schedule: the clock also passes through the inside of the gap, a day (and a bit) at a time
+				steps = append(steps, 86400, 90000)
+			}
 			// all advance sequences up to a depth
 			depth := p.pick(3, 5)
 			var rec func(prefix []int64, d int)
@@ -1013,7 +1017,7 @@ func genSchedule(p *params, emit func(string, bool)) {
 					rec(append(append([]int64{}, prefix...), a), d-1)
 				}
 			}
-			if sp.id == 1 || sp.id == 3 || p.thorough() {
+			if sp.id == 1 || sp.id == 3 || sp.id == 6 || p.thorough() {
 				rec(nil, depth)
 			}
 			if filt == 0 {
